@@ -218,7 +218,9 @@ func (s PointsToSet) String() string {
 // contains.
 func (s PointsToSet) Labels() []*Label {
 	var labels []*Label
-	if s.pts != nil {
+	// Points-to sets are read concurrently by clients (e.g. the workers that build the function summaries): an empty
+	// set that has never been used is not touched, because intsets.Sparse initializes itself lazily (a write).
+	if s.pts != nil && !s.pts.IsEmpty() {
 		var space [50]int
 		for _, l := range s.pts.AppendTo(space[:0]) {
 			labels = append(labels, s.a.labelFor(nodeid(l)))
@@ -242,7 +244,7 @@ func (s PointsToSet) Labels() []*Label {
 func (s PointsToSet) DynamicTypes() *typeutil.Map {
 	var tmap typeutil.Map
 	tmap.SetHasher(s.a.hasher)
-	if s.pts != nil {
+	if s.pts != nil && !s.pts.IsEmpty() {
 		var space [50]int
 		for _, x := range s.pts.AppendTo(space[:0]) {
 			ifaceObjID := nodeid(x)
@@ -267,7 +269,8 @@ func (s PointsToSet) DynamicTypes() *typeutil.Map {
 // Intersects reports whether this points-to set and the
 // argument points-to set contain common members.
 func (s PointsToSet) Intersects(y PointsToSet) bool {
-	if s.pts == nil || y.pts == nil {
+	if s.pts == nil || y.pts == nil || s.pts.IsEmpty() || y.pts.IsEmpty() {
+		// (an empty set is not touched: see Labels)
 		return false
 	}
 	// This takes Θ(|x|+|y|) time.
